@@ -49,7 +49,172 @@ func fmtSubs(ss []sub) string {
 
 var subNames = []string{"a.bj", "b.gz", "c.hz", "GSLB_BLACKHOLE", "A.x", "z9", "d.nj"}
 
+// names chosen so that new sub-clusters sort before, between and after the existing ones
+// (upper case < digits-first < lower case; GSLB_BLACKHOLE sorts before every lower-case name)
+var reloadNames = []string{"0.first", "A.x", "GSLB_BLACKHOLE", "a.bj", "b.gz", "c.hz", "idc-a", "idc-b", "idc-c", "m.mid", "z9", "zz.last"}
+
+// genReload: Init + Reload histories that add / remove / re-weight sub-clusters
+func genReload(r *vh.Rand) string {
+	type ent struct {
+		name string
+		w    int
+	}
+	pick := func(k int) []ent {
+		seen := map[string]bool{}
+		var out []ent
+		for len(out) < k {
+			nm := reloadNames[r.Intn(len(reloadNames))]
+			if seen[nm] {
+				continue
+			}
+			seen[nm] = true
+			out = append(out, ent{nm, 0})
+		}
+		return out
+	}
+	weights := func(es []ent) {
+		single := r.Chance(1, 2)
+		for i := range es {
+			switch {
+			case single:
+				es[i].w = []int{0, 0, 0, -1}[r.Intn(4)]
+			case r.Chance(1, 4):
+				es[i].w = []int{0, -5}[r.Intn(2)]
+			default:
+				es[i].w = r.Range(1, 100)
+			}
+		}
+		// at least one positive (GslbClusterConf.Check), preferably not the black hole
+		pos := false
+		for _, e := range es {
+			pos = pos || e.w > 0
+		}
+		if !pos {
+			i := r.Intn(len(es))
+			if es[i].name == "GSLB_BLACKHOLE" && len(es) > 1 && r.Chance(3, 4) {
+				i = (i + 1) % len(es)
+			}
+			es[i].w = r.Range(1, 100)
+		}
+	}
+	addrN := 0
+	mkBe := func() string {
+		addrN++
+		w := r.Range(1, 5) * 100
+		if r.Chance(1, 10) {
+			w = 0
+		}
+		a := 1
+		if r.Chance(1, 6) {
+			a = 0
+		}
+		return fmt.Sprintf("10.1.%d.%d:80/%d/%d/%d", r.Intn(3), addrN, w, r.Range(0, 3), a)
+	}
+	cur := pick(r.Range(1, 4))
+	weights(cur)
+	var ss []string
+	for _, e := range cur {
+		nb := r.Range(1, 3)
+		if r.Chance(1, 8) {
+			nb = 0
+		}
+		var bs []string
+		for j := 0; j < nb; j++ {
+			bs = append(bs, mkBe())
+		}
+		b := "-"
+		if len(bs) > 0 {
+			b = strings.Join(bs, ",")
+		}
+		ss = append(ss, fmt.Sprintf("%s=%d=%s", e.name, e.w, b))
+	}
+	keys := [][]byte{r.Bytes(4), r.Bytes(4), r.Bytes(4), r.Bytes(16)}
+	var steps []string
+	reqs := func(k int) {
+		for i := 0; i < k; i++ {
+			retry := 0
+			if r.Chance(1, 5) {
+				retry = r.Range(0, 4)
+			}
+			steps = append(steps, fmt.Sprintf("q%d:%s", retry, vh.Hex(keys[r.Intn(len(keys))])))
+		}
+	}
+	reqs(r.Range(1, 3))
+	hasBk := map[string]bool{}
+	for _, e := range cur {
+		hasBk[e.name] = true // may be empty, U is only used for sub-clusters created by a reload
+	}
+	for n := r.Range(1, 4); n > 0; n-- {
+		// next conf: drop some, re-weight, add new names
+		var next []ent
+		for _, e := range cur {
+			if len(cur) > 1 && r.Chance(1, 5) {
+				continue
+			}
+			next = append(next, e)
+		}
+		if len(next) == 0 {
+			next = append(next, cur[0])
+		}
+		for k := r.Intn(3); k > 0 && len(next) < 6; k-- {
+			nm := reloadNames[r.Intn(len(reloadNames))]
+			dup := false
+			for _, e := range next {
+				dup = dup || e.name == nm
+			}
+			if !dup {
+				next = append(next, ent{nm, 0})
+			}
+		}
+		if r.Chance(2, 3) {
+			weights(next)
+		} else {
+			for i := range next { // keep old weights, new ones stand by with weight 0
+				_ = i
+			}
+			pos := false
+			for _, e := range next {
+				pos = pos || e.w > 0
+			}
+			if !pos {
+				weights(next)
+			}
+		}
+		// map order is random in Go anyway; shuffle for the op text
+		for i := len(next) - 1; i > 0; i-- {
+			j := r.Intn(i + 1)
+			next[i], next[j] = next[j], next[i]
+		}
+		parts := make([]string, len(next))
+		for i, e := range next {
+			parts[i] = fmt.Sprintf("%s:%d", e.name, e.w)
+		}
+		steps = append(steps, "R"+strings.Join(parts, "/"))
+		newHas := map[string]bool{}
+		for _, e := range next {
+			if hasBk[e.name] {
+				newHas[e.name] = true
+			} else if r.Chance(3, 4) {
+				steps = append(steps, fmt.Sprintf("U%s=%s", e.name, mkBe()))
+				newHas[e.name] = true
+			}
+		}
+		hasBk = newHas
+		cur = next
+		reqs(r.Range(2, 5))
+	}
+	mode := r.Pick("wrr", "wrr", "wlc")
+	sticky := 0
+	if r.Chance(1, 4) {
+		sticky = 1
+	}
+	return fmt.Sprintf("gb %s %d %d %d %s %s", mode, sticky, r.Range(0, 2), r.Range(0, 2), strings.Join(ss, ";"), strings.Join(steps, ","))
+}
+
 func gen(r *vh.Rand) string {
+	if r.Chance(2, 5) {
+		return genReload(r)
+	}
 	ns := r.Range(1, 4)
 	if r.Chance(1, 8) {
 		ns = r.Range(5, 6)
@@ -291,6 +456,63 @@ func exec(op string) string {
 			}
 			continue
 		}
+		if st[0] == 'R' {
+			conf := gslb_conf.GslbClusterConf{}
+			for _, t := range strings.Split(st[1:], "/") {
+				c := strings.IndexByte(t, ':')
+				if c <= 0 {
+					return "bad-op"
+				}
+				w, err := strconv.Atoi(t[c+1:])
+				if _, dup := conf[t[:c]]; err != nil || dup {
+					return "bad-op"
+				}
+				conf[t[:c]] = w
+			}
+			if err := bal.Reload(conf); err != nil {
+				out = append(out, "Rerr")
+			} else {
+				out = append(out, "Rok")
+			}
+			continue
+		}
+		if st[0] == 'U' {
+			e := strings.IndexByte(st, '=')
+			if e <= 1 {
+				return "bad-op"
+			}
+			name := st[1:e]
+			q := strings.Split(st[e+1:], "/")
+			rr := bal.VerifC03SubRR(name)
+			if len(q) != 4 || rr == nil || rr.Len() != 0 {
+				return "bad-op"
+			}
+			bw, e1 := strconv.Atoi(q[1])
+			bc, e2 := strconv.Atoi(q[2])
+			ba, e3 := strconv.Atoi(q[3])
+			ci := strings.LastIndexByte(q[0], ':')
+			if e1 != nil || e2 != nil || e3 != nil || ci <= 0 || addrSeen[q[0]] || bc < -1000 || bc > 1000 {
+				return "bad-op"
+			}
+			port, e4 := strconv.Atoi(q[0][ci+1:])
+			if e4 != nil || strconv.Itoa(port) != q[0][ci+1:] {
+				return "bad-op"
+			}
+			addrSeen[q[0]] = true
+			bn, addr, one := "u", q[0][:ci], 1
+			bal.BackendReload(cluster_table_conf.ClusterBackend{name: cluster_table_conf.SubClusterBackend{
+				&cluster_table_conf.BackendConf{Name: &bn, Addr: &addr, Port: &port, Weight: &one}}})
+			rr.VerifC03SetRaw(q[0], bw, bw)
+			h := rr.VerifC03Backend(q[0])
+			h.SetAvail(ba == 1)
+			for h.ConnNum() < bc {
+				h.IncConnNum()
+			}
+			for h.ConnNum() > bc {
+				h.DecConnNum()
+			}
+			continue
+		}
 		eq := strings.IndexByte(st, '=')
 		dot := strings.IndexByte(st, '.')
 		if eq < 0 || dot < 0 || dot > eq {
@@ -302,13 +524,17 @@ func exec(op string) string {
 		if e1 != nil || e2 != nil || e3 != nil || si < 0 || si >= len(ss) || bi < 0 || bi >= len(ss[si].bs) || n < -1000 || n > 1000 {
 			return "bad-op"
 		}
-		switch st[0] {
-		case 'a':
-			bal.VerifC03SubRR(ss[si].name).VerifC03Backend(ss[si].bs[bi].addr).SetAvail(n == 1)
-		case 'c':
-			setConn(si, bi, n)
-		default:
+		if st[0] != 'a' && st[0] != 'c' {
 			return "bad-op"
+		}
+		rr := bal.VerifC03SubRR(ss[si].name)
+		if rr == nil || rr.VerifC03Backend(ss[si].bs[bi].addr) == nil {
+			continue // the sub-cluster was removed (or re-created empty) by a reload
+		}
+		if st[0] == 'a' {
+			rr.VerifC03Backend(ss[si].bs[bi].addr).SetAvail(n == 1)
+		} else {
+			setConn(si, bi, n)
 		}
 	}
 	return strings.Join(out, ",")
